@@ -62,7 +62,7 @@ def _found(stored_title: str, lookup: str, ns) -> bool:
 TITLES = ["Template:Foo", "Template:Bar"]
 NS = 10
 BODIES = ["one", "two"]
-OPS = ["add0", "add1", "redirect", "get", "exists", "body", "resolve"]
+OPS = ["add0", "add1", "redirect", "get", "exists", "body", "resolve", "add0s"]
 
 
 def apply_real(op: int, t: int):
@@ -73,6 +73,9 @@ def apply_real(op: int, t: int):
         return None
     if o == "redirect":
         ctx.add_page(title, NS, None, redirect_to=other)
+        return None
+    if o == "add0s":  # same body as add0, another content model
+        ctx.add_page(title, NS, BODIES[0], model="Scribunto")
         return None
     if o == "get":
         p = ctx.get_page(title, NS)
@@ -94,6 +97,9 @@ def apply_model(m: dict, op: int, t: int):
         return None
     if o == "redirect":
         m[title] = (title, None, other, "wikitext")
+        return None
+    if o == "add0s":
+        m[title] = (title, BODIES[0], None, "Scribunto")
         return None
     p = m.get(title)
     if o == "get":
@@ -127,7 +133,7 @@ def describe(ops):
     for op, t in ops:
         o = OPS[op]
         title = TITLES[t]
-        out.append({"add0": f"add_page({title!r}, 10, 'one')", "add1": f"add_page({title!r}, 10, 'two')", "redirect": f"add_page({title!r}, 10, None, redirect_to={TITLES[1 - t]!r})", "get": f"get_page({title!r}, 10)", "exists": f"page_exists({title!r}, 10)", "body": f"get_page({title!r}, 10).body", "resolve": f"get_page_resolve_redirect({title!r}, 10)"}[o])
+        out.append({"add0": f"add_page({title!r}, 10, 'one')", "add1": f"add_page({title!r}, 10, 'two')", "redirect": f"add_page({title!r}, 10, None, redirect_to={TITLES[1 - t]!r})", "get": f"get_page({title!r}, 10)", "exists": f"page_exists({title!r}, 10)", "body": f"get_page({title!r}, 10).body", "resolve": f"get_page_resolve_redirect({title!r}, 10)", "add0s": f"add_page({title!r}, 10, 'one', model='Scribunto')"}[o])
     return "; ".join(out)
 
 
